@@ -151,6 +151,14 @@ def gen_ops(tier, rng):
     pick = sub.sample(conc, min(len(conc), 250 if tier == "quick" else 2000)) + sub.sample(faults, min(len(faults), 150 if tier == "quick" else 2000))
     for (line, meta) in pick:
         ops.append(("guard " + line, {"cat": "stream-" + meta["cat"]}))
+    # stream Reconstruct, exhaustive over the argument shape of small encoders: every index has no stream, a reader, a fill
+    # writer, or BOTH (the documented ErrReconstructMismatch, wherever the clash sits), sequential and concurrent I/O
+    for (d, p) in ([(2, 3)] if tier == "quick" else [(2, 3), (3, 2), (1, 4)]):
+        for st in itertools.product("nvfb", repeat=d + p):
+            valid = [i for i in range(d + p) if st[i] in "vb"]
+            fill = [i for i in range(d + p) if st[i] in "fb"]
+            for c in ["-", "c"]:
+                ops.append((f"guard srecon {d} {p} 64 70 {c15.lst(valid)} {c15.lst(fill)} - - {sub.randrange(1, 1<<30)} {c} 0", {"cat": "grid-srecon"}))
     return ops
 
 
